@@ -118,3 +118,88 @@ def run(F, rep):
                 if not guarded:
                     det += '; recursive call at line %s is not guarded by a visited-list test' % c.get('l')
         rep.check(ok, 'C18.V1', g.short, g.where(), det, det)
+
+    # ------------------------------------------------------------------ memo wrapper returns only memoised/underlying values
+    rep.rule('C18.M1', 'AnalyserModel::areEquivalentVariables returns only the memoised value or the result of the underlying search on the same two variables, and memoises exactly that result')
+    util_calls = [c for c in f.walk() if c.get('k') == 'Call' and util.key in F.callee_keys(c)]
+    if not util_calls:
+        raise AnalysisBroken('AnalyserModel::areEquivalentVariables no longer calls the utility search')
+    uc = util_calls[0]
+    args_ok = [render(a) for a in uc['c']] == [p['n'] for p in f.params]
+    rep.check(args_ok, 'C18.M1', 'search-arguments', f.where(uc), 'the underlying search is called with %s instead of the two parameters' % [render(a) for a in uc['c']], 'search on (variable1, variable2)')
+    resvar = f.parent(uc) if f.parent(uc) is not None and f.parent(uc).get('k') == 'Var' else None
+    for r in f.walk():
+        if r.get('k') != 'Return' or not r.get('c'):
+            continue
+        e = r['c'][0]
+        t = render(e)
+        ok = (resvar is not None and e.get('k') == 'Ref' and e.get('d') == resvar['d']) or t.endswith('->second') or any(x is uc for x in walk(e))
+        rep.check(ok, 'C18.M1', 'return %s' % t[:40], f.where(r), 'the cached query returns `%s`, which is neither the memo entry nor the result of the search: a shortcut can disagree with the connection graph' % t, 'memo value or search result')
+    stores = [c for c in f.walk() if c.get('k') == 'Call' and c.get('mc') and c.get('fn') in ('emplace', 'insert', 'insert_or_assign', 'try_emplace') and receiver(c) is not None and receiver(c).get('n') == 'mCachedEquivalentVariables']
+    for c in stores:
+        v = c['c'][-1]
+        rep.check(resvar is not None and v.get('k') == 'Ref' and v.get('d') == resvar['d'], 'C18.M1', 'memoised-value', f.where(c), 'the memo stores `%s`, not the search result' % render(v), 'stores the search result')
+
+    # ------------------------------------------------------------------ iterator validity in the equivalence lists
+    rep.rule('C18.I1', 'in Variable::VariableImpl an iterator into mEquivalentVariables is not used after a call that can modify that list (cleanExpiredVariables, erase, push_back) made after the iterator was obtained')
+    import fields as _fields
+    n_it = 0
+    for g in F.funcs.values():
+        if g.cls != 'libcellml::Variable::VariableImpl' and g.cls != 'libcellml::Variable':
+            continue
+        cfg = g.cfg()
+        if cfg is None:
+            continue
+        for v in g.walk():
+            if v.get('k') != 'Var' or not v.get('c'):
+                continue
+            ini = v['c'][0]
+            if not (ini.get('k') == 'Call' and ('iterator' in ini.get('rt', '') or ini.get('fn', '').startswith('find'))):
+                continue
+            # container the iterator points into
+            cont = None
+            for ck in F.callee_keys(ini):
+                h = F.funcs.get(ck)
+                if h is not None and 'mEquivalentVariables' in _fields.this_reads(F, h):
+                    cont = 'mEquivalentVariables'
+            if cont is None and 'mEquivalentVariables' in render(ini):
+                cont = 'mEquivalentVariables'
+            if cont is None:
+                continue
+            n_it += 1
+            uses = [x for x in g.walk() if x.get('k') == 'Ref' and x.get('d') == v['d'] and g.enclosing_lambda(x) is None]
+            muts = []
+            for c in g.walk():
+                if c.get('k') != 'Call' or c is ini or g.enclosing_lambda(c) is not None:
+                    continue
+                if c.get('mc') and c.get('fn') in ('erase', 'push_back', 'clear', 'insert', 'emplace_back') and receiver(c) is not None and receiver(c).get('n') == cont:
+                    # the erase that consumes the iterator itself is the intended last use
+                    if any(x.get('k') == 'Ref' and x.get('d') == v['d'] for x in walk(c)):
+                        continue
+                    muts.append(c)
+                else:
+                    for ck in F.callee_keys(c):
+                        h = F.funcs.get(ck)
+                        if h is not None and c.get('mc') and c.get('c') and (c['c'][0].get('k') in ('This', 'NoObj') or render(c['c'][0]) in ('this', 'pFunc()')) and cont in _fields.this_writes(F, h):
+                            muts.append(c)
+            from faillog import _can_reach
+            bad = None
+            for mc in muts:
+                if not _can_reach(cfg, ini, mc) or not cfg.node_dominates(ini, mc) and not _can_reach(cfg, ini, mc):
+                    continue
+                pm = cfg.block_of(mc)
+                pi = cfg.block_of(ini)
+                if pm is None or pi is None or (pm[0] == pi[0] and pm[1] < pi[1]):
+                    continue
+                for u in uses:
+                    pu = cfg.block_of(u)
+                    if pu is None:
+                        continue
+                    after = (pu[0] == pm[0] and pu[1] > pm[1]) or (pu[0] != pm[0] and _can_reach(cfg, mc, u))
+                    if after:
+                        bad = (mc, u)
+            rep.check(bad is None, 'C18.I1', '%s|%s' % (g.short, v['n']), g.where(v),
+                      'iterator `%s` into %s is used at line %s after `%s` (line %s) may have modified the list: the wrong equivalence is erased and the lists of the two variables become asymmetric' % (
+                          v['n'], cont, bad[1].get('l') if bad else '?', render(bad[0])[:40] if bad else '?', bad[0].get('l') if bad else '?'), 'no modification between obtaining and using the iterator')
+    if n_it < 2:
+        raise AnalysisBroken('iterators into mEquivalentVariables: %d found, 3 confirmed' % n_it)
